@@ -151,6 +151,12 @@ def m_fmt_byte(recs):
     return recs, k + 1, "a word of the object the reader built changed"
 
 
+def m_fmt_txt(recs):
+    k = first(recs, lambda r: r["ev"] == "Fmt" and r["kind"] == "txt" and len(r["input"]) > 60)
+    recs[k]["input"][40] ^= 1
+    return recs, k + 1, "one byte of the text written by the real writer changed"
+
+
 CASES = [
     ("tables-decode", ["decode"], "TV_Tables", "TV_Tables.cfg", "i", m_decode, 3000),
     ("tables-offset", ["offset"], "TV_Tables", "TV_Tables.cfg", "i", m_offset, 2000),
@@ -172,6 +178,7 @@ CASES = [
     ("fmt-view", ["fmt", "n=60"], "TV_Fmt", "TV_Fmt.cfg", "l", m_fmt_view, 0),
     ("fmt-accept", ["fmt", "n=60"], "TV_Fmt", "TV_Fmt.cfg", "l", m_fmt_accept, 0),
     ("fmt-word", ["fmt", "n=60"], "TV_Fmt", "TV_Fmt.cfg", "l", m_fmt_byte, 0),
+    ("fmt-text", ["fmt", "n=20"], "TV_Fmt", "TV_Fmt.cfg", "l", m_fmt_txt, 0),
 ]
 
 
